@@ -51,7 +51,7 @@ ev = {
  "property_id": "C18", "tier": tier, "seed": seed, "level": "exploration",
  "coverage": {
   "evaluations": max(calls, 1), "distinct_nontrivial": distinct,
-  "rule": "corpus of %s patterns (wrapped: literal, lazy DFA, one-pass, captures; VM: look-around, backrefs, atomic, possessive, conditionals, \\K, \\G, named groups) x %s texts x {captures, find_iter, is_match, try_replacen with a template, split}; a single-threaded pass records every result; then for N in 2,4,8,16 threads released by a barrier hammer (a) one shared &Regex, (b) clones, (c) a mix, each following a seeded schedule and comparing EVERY result with the table; an in-flight counter per Regex records calls that overlapped another thread's call on the same Regex. Legs: static Send+Sync+Clone assertion crate; native; ThreadSanitizer build (-Zsanitizer=thread -Zbuild-std, halt_on_error); thorough: Miri, 16 seeds x 3 threads on a wrapped and a VM pattern. Non-trivial: distinct (pattern, text, api) triples compared while another thread was inside the same Regex." % ((nat or {}).get("patterns", "?"), (nat or {}).get("texts", "?")),
+  "rule": "corpus of %s patterns (wrapped: literal, lazy DFA, one-pass, captures; VM: look-around, backrefs, atomic, possessive, conditionals, \\K, \\G, named groups) x %s texts x {captures, find_iter, is_match, try_replacen with a template, split}; a single-threaded pass records every result; then for N in 2,4,8,16 threads released by a barrier hammer (a) one shared &Regex, (b) clones, (c) a mix, each following a seeded schedule and comparing EVERY result with the table; an in-flight counter per Regex records calls that overlapped another thread's call on the same Regex. Cross-text rounds: 6-16 threads search DIFFERENT long texts through one Regex (and clones) at the same time - texts that share a prefix of hundreds of failed attempts and differ in what the delegated piece behind it finds, and texts that reach the delegated pieces of two alternatives in opposite order - each result compared with the single-threaded one, every thread back within 60 s. Legs: static Send+Sync+Clone assertion crate; native; ThreadSanitizer build (-Zsanitizer=thread -Zbuild-std, halt_on_error); thorough: Miri, 16 seeds x 3 threads on a wrapped and a VM pattern. Non-trivial: distinct (pattern, text, api) triples compared while another thread was inside the same Regex." % ((nat or {}).get("patterns", "?"), (nat or {}).get("texts", "?")),
   "samples": [(nat or {}).get("sample", "native leg did not run"), {"tsan_calls": (ts or {}).get("calls"), "miri_runs": len(miris)}],
   "exhaustive": False,
   "legs": {"static": static, "native": native, "tsan": tsan, "miri": miri},
